@@ -17,4 +17,15 @@ PROPS = {
         "level_note": "Trusted: Lean kernel (propext, Quot.sound), the hand-written Model/Walk.lean being the image of walk.go (sampled by the differential, not proved), the fact extractor, the harness.",
         "technique": "structural induction in Lean 4 (walker = emit of spec list for every consumer) + exact differential correspondence",
     },
+    "C05": {
+        "theorems": ["calls_le", "no_call_after_final", "one_attempt_per_call", "attempt_times",
+                     "overrun_recorded_as_retryable_timeout", "wrong_type_is_permanent_and_dropped", "plain_recorded_as_returned",
+                     "completed_iff_last_ok", "events_shape", "events_shape_check"],
+        "assumptions": COMMON_ASSUME + ["exponential.Retry calls op again iff it returned a non-permanent error and the run context is live (it is never cancelled inside one process)",
+                                        "the wall clock does not run backwards (times are proved on a logical clock, observed as ranks)"],
+        "trusted": ["modelled: internal/execute/sm/actions/actions.go + sm.runAction (Model/Attempts.lean)"],
+        "level_text": "Lean theorems over every retry budget and every outcome oracle (scripts of any length over response kind x error kind x overrun): call bound Retries+1, no call after success/permanent, one attempt per call in order with the classified result, overrun = retryable timeout, wrong type = permanent and dropped, Completed iff last attempt has no error, persistence order of writes. Tie: exact differential of per-action event sequences (durable writes with attempt counts, plugin enter/exit) and stored attempts through the real engine, for sequence and check actions.",
+        "level_note": "Trusted: Lean kernel (propext, Quot.sound), Model/Attempts.lean being the image of actions.go (sampled by the differential), Retry semantics as read, logical clock for times.",
+        "technique": "induction over the retry loop in Lean 4 (loop = closed form over consumed outcomes) + exact differential correspondence on event sequences",
+    },
 }
